@@ -176,6 +176,15 @@ func (n NodeTypeNot) marshalCedar(buf *bytes.Buffer) {
 
 func (n NodeTypeNegate) marshalCedar(buf *bytes.Buffer) {
 	buf.WriteRune('-')
+	// `-5` is read back as the literal -5, not as the negation of 5: keep the negation visible
+	if v, ok := n.NodeTypeNegate.Arg.(ast.NodeValue); ok {
+		if l, ok := v.Value.(types.Long); ok && l >= 0 {
+			buf.WriteRune('(')
+			buf.Write(l.MarshalCedar())
+			buf.WriteRune(')')
+			return
+		}
+	}
 	marshalChildNode(n.precedenceLevel(), n.NodeTypeNegate.Arg, buf)
 }
 
